@@ -14,11 +14,11 @@ Aggs == << [norm |-> 0, root |-> 1, full |-> TRUE],  [norm |-> 1, root |-> 1, fu
 FlagOK(h, sb, st) == AllFlags \/ (sb = ((h % 2) = 1) /\ st = (((h \div 2) % 2) = 1))
 PointsScen ==
     {[kind |-> "points", Nb |-> L, Nt |-> 1, bb |-> bs, tb |-> 1, drop |-> dr, shufB |-> sb, shufT |-> FALSE,
-      d |-> D(L), agg |-> Aggs] :
+      d |-> D(L), agg |-> Aggs, bb2 |-> (bs % (MaxB + 2)) + 1] :
         L \in 1..(MaxN + 2), bs \in 1..(MaxB + 2), dr \in BOOLEAN, sb \in BOOLEAN}
 DOScen ==
     {[kind |-> k, Nb |-> nb, Nt |-> nt, bb |-> bb, tb |-> tb, drop |-> FALSE, shufB |-> f[1], shufT |-> f[2],
-      d |-> <<>>, agg |-> <<>>] :
+      d |-> <<>>, agg |-> <<>>, bb2 |-> 0] :
         k \in {"shared", "unique"}, nb \in 1..MaxN, nt \in 1..MaxN, bb \in BSizes, tb \in BSizes,
         f \in {g \in BOOLEAN \X BOOLEAN : TRUE}}
 Scen == PointsScen \cup {s \in DOScen : FlagOK(s.Nb + 3 * s.Nt + 5 * s.bb + 7 * s.tb, s.shufB, s.shufT)}
